@@ -213,6 +213,17 @@ where
         // ... and however the by-value iterator is consumed (positional adapters)
         let nseg = f.segments.len();
         let mut positional: Vec<(&'static str, usize, Option<Segment<T::IntegralOf>>)> = vec![];
+        // internal iteration and the size hint
+        variants.push(("integral_iter consumed by fold", Segment::integral_iter(f.segments.clone(), k0).fold(Vec::new(), |mut v, s| { v.push(s); v })));
+        variants.push(("integral_iter_ref consumed by for_each", { let mut v = vec![]; Segment::integral_iter_ref(f.segments.iter(), k0).for_each(|s| v.push(s)); v }));
+        {
+            let (lo, hi) = Segment::integral_iter(f.segments.clone(), k0).size_hint();
+            let (lo2, hi2) = Segment::integral_iter_ref(f.segments.iter(), k0).size_hint();
+            if lo > nseg || lo2 > nseg || hi.map_or(false, |h| h < nseg) || hi2.map_or(false, |h| h < nseg) {
+                // (reported through the variant comparison below: an empty variant never equals the pieces)
+                variants.push(("integral_iter(_ref).size_hint() does not bracket the number of pieces produced", vec![]));
+            }
+        }
         positional.push(("last()", nseg - 1, Segment::integral_iter(f.segments.clone(), k0).last()));
         for nth in [1usize, 2] {
             if nth < nseg {
